@@ -204,6 +204,11 @@ def conclude(mod, tier, seed, merged, errors, t0, post=None):
         by_sig.setdefault(v['sig'], []).append(v)
     new, listed = [], []
     os.makedirs(os.path.join(REPLAYS, prop), exist_ok=True)
+    for old in os.listdir(os.path.join(REPLAYS, prop)):     # replays of this run only
+        try:
+            os.unlink(os.path.join(REPLAYS, prop, old))
+        except OSError:
+            pass
     for sig, vs in by_sig.items():
         if sig in known:
             listed.append((sig, vs[0]))
